@@ -2,7 +2,7 @@
 From Coq Require Import Qround.
 From DA Require Import Prelude NDArray Array PyRT.
 From DA.Model Require Import Value Reshape SliceSpec Indexing Align.
-From DA.Proofs Require Import C10_proofs C01_proofs C03_proofs C07_proofs C06_proofs C01_complete C06_direction.
+From DA.Proofs Require Import C10_proofs C01_proofs C03_proofs C07_proofs C06_proofs C01_complete C06_direction C06_nary_direction.
 Open Scope nat_scope.
 
 (* Axis.union (all five branches: equal / empty / sorted merge / concatenate+isin): the result's
@@ -87,6 +87,28 @@ Theorem C06_sort_ascending : forall ax,
   asc (alab (axis_sorted ax)) /\ Permutation.Permutation (argsort (alab ax)) (seq 0 (alen ax)).
 Proof. exact axis_sorted_ascending. Qed.
 Print Assumptions C06_sort_ascending.
+
+(* three or more inputs: the pairwise unions of the fold are followed by [keep_direction], which - when all the inputs
+   (empty ones and placeholders aside) are monotonic the same way, numeric or all str - puts the common axis in that
+   order; it never changes which labels the axis holds, nor its name, kind or metadata *)
+Theorem C06_nary_direction_keeps_labels : forall axs com,
+  Permutation.Permutation (alab (keep_direction axs com)) (alab com) /\
+  aname (keep_direction axs com) = aname com /\ akind (keep_direction axs com) = akind com /\ aattrs (keep_direction axs com) = aattrs com.
+Proof. exact keep_direction_labels. Qed.
+Print Assumptions C06_nary_direction_keeps_labels.
+Theorem C06_nary_direction_sorted : forall axs com,
+  keep_direction axs com <> com ->
+  exists u, (u = true -> alab (keep_direction axs com) = sort_labels (alab com)) /\
+            (u = false -> alab (keep_direction axs com) = rev (sort_labels (alab com))).
+Proof. exact keep_direction_sorted. Qed.
+Print Assumptions C06_nary_direction_sorted.
+Theorem C06_sorted_labels_ascending : forall l, asc (sort_labels l).
+Proof. exact sort_labels_asc. Qed.
+Print Assumptions C06_sorted_labels_ascending.
+Example C06_nary_direction_example :
+  option_map alab (match common_axis_top [ax_new "x" KI [L_ 9; L_ 7] []; ax_new "x" KI [L_ 5] []; ax_new "x" KI [L_ 3] []] Outer with Ok a => Some a | Err _ => None end)
+  = Some [L_ 9; L_ 7; L_ 5; L_ 3].
+Proof. vm_compute. reflexivity. Qed.
 
 (* any number of inputs (the fold _common_axis): the common axis holds exactly the labels that some input has
    (outer join) / that every input has (inner join) *)
